@@ -25,7 +25,7 @@ class Injected(Exception):
 
 def main():
     tier = common.tier()
-    nshards, nprogs = (8, 12) if tier == "quick" else (32, 120)
+    nshards, nprogs = (16, 4) if tier == "quick" else (32, 60)
     jobs = [dict(seed="%d/%s/%d" % (common.seed(), PROP, s), nprogs=nprogs) for s in range(nshards)]
     R = common.Run(PROP, "fault_enumeration", RULE)
     for job, res, err in shard.run_jobs("vf.checks.C08", "worker", jobs, timeout=3600, nproc=16):
